@@ -9,6 +9,7 @@ import re
 from . import common
 from . import pure
 from . import c17k
+from . import c17mx
 
 PROOFS = ["proofs/AtomicsProofs.v", "proofs/MutexWordProofs.v", "proofs/MutexExclProofs.v", "proofs/MutexAcctProofs.v",
           "models/Atomics.v", "models/MutexWord.v", "models/MutexObs.v", "proofs/MutexObsProofs.v"]
@@ -596,7 +597,9 @@ TRUSTED = [
     "(*Mutex).VerifStateWord to place harness-constructed state words",
     "modelled, not verified: Go atomics as sequentially consistent steps; goroutine scheduling as arbitrary interleaving of those steps; int64/int32 "
     "bit operations as Z.lor/Z.land/Z.lnot/Z.shiftr on signed Z; the AddIf64 predicate as a pure function of its argument; sync.Mutex Lock/Unlock "
-    "(runtime code without yield points) re-modelled from the Go 1.23 source in MutexWord.v, exercised only by the real-concurrency stress",
+    "(runtime code without yield points) modelled from the Go source in MutexWord.v and stepped against a copy of the toolchain's "
+    "Lock/lockSlow/Unlock/unlockSlow generated on every run (vlib/mxgen.py: token substitutions only; shims harness/cmd/mxstep/shim.go), "
+    "not against the compiled runtime: the runtime semaphore (token counter), runtime_canSpin/doSpin, runtime_nanotime (oracles) stay modelled",
 ]
 
 
@@ -605,7 +608,9 @@ def run(chk):
     chk.assumptions = ["sync/atomic operations are sequentially consistent (Go memory model)",
                        "the AddIf64 predicate is a pure, terminating function of its argument",
                        "preemption matters only between the atomic accesses (each has a yield point in front)",
-                       "sync.Mutex state word layout of Go 1.23 (locked=1, woken=2, starving=4, waiters=state>>3), as copied by loom/mutex.go"]
+                       "sync.Mutex state word layout of Go 1.23 (locked=1, woken=2, starving=4, waiters=state>>3), as copied by loom/mutex.go",
+                       "the runtime semaphore wakes a thread parked in runtime_SemacquireMutex only after a runtime_Semrelease (token counter); "
+                       "runtime_canSpin / runtime_nanotime are arbitrary (oracle numbers per Lock call)"]
     chk.cov["rule"] = ("c17a: case = (initial int64 word, one program of AddFlag/RemoveFlag/HasFlag/AddIf64 calls per thread, schedule of thread ids); the real "
                        "code runs it under the cooperative scheduler, the model runs at_step; compared: the event of every step (yield SITE id 14/15/16/17 or the "
                        "returned value), the round-robin completion and the value of the word after every step. Streams: every interleaving of 2 threads x 1-2 "
@@ -613,11 +618,16 @@ def run(chk):
                        "at the int64 boundaries; one schedule per reachable (model state, thread) edge for 3 threads; random schedules for 4 threads. "
                        "c17t: one TryLock with the state word rewritten before each of its three accesses (locked/woken/starving x waiters 0..4 at each point): events "
                        "and word after each access. c17c: Count on constructed words. c17s: real goroutines Lock/TryLock/Unlock with an occupancy counter (monitor only). "
+                       "c17x (streams mx-*): case = (one program of Lock(spin, starve)/TryLock/Unlock calls per thread, schedule); the real loom.Mutex.TryLock and a copy of "
+                       "the toolchain's sync.Mutex Lock/lockSlow/Unlock/unlockSlow (generated on this run, see mx_source) run on one state word under the cooperative "
+                       "scheduler, the model runs mx_step; compared per step: thread, pc before, access operands and outcome, pc after / returned value, state word, semaphore "
+                       "tokens; then round-robin completion. Monitor: at most one holder at any step, TryLock true only from locked=starving=0 setting only the locked bit, "
+                       "no throw/fatal, no thread blocked for ever, word 0 and no token at the end. "
                        "non-trivial = c17a: a CAS failed or an AddIf64 returned false or two threads interleave; c17t: not the all-zero word; c17c: waiters > 0")
     chk.run_proof_gate(PROOFS)
     binary = build_coop(chk)
     if binary:
-        streams = [("corpus", pure.corpus_cases("C17"))] + gen(chk, chk.tier)
+        streams = [("corpus", [c for c in pure.corpus_cases("C17") if not c.startswith("c17x")])] + gen(chk, chk.tier)
         pure.run_streams(chk, binary, streams, compare, monitor, nontrivial)
         # real-concurrency stress: implementation side only
         run_stress(chk, binary, gen_stress(chk, chk.tier), count=True)
@@ -630,6 +640,13 @@ def run(chk):
             chk.cov["vm_compute_crosschecked"] = coq_crosscheck(chk, sample, mo)
         except Exception as ex:
             chk.infra_errors.append("vm_compute cross-check failed: %r" % (ex,))
+    # sync.Mutex's Lock/Unlock (copy of the toolchain's source generated on this run) + the real TryLock, stepped against mx_step
+    try:
+        c17mx.run(chk)
+    except common.BuildError:
+        raise
+    except Exception as ex:
+        chk.infra_errors.append("mutex-stepped stream failed: %r" % (ex,))
     chk.finish(search=search)
 
 
@@ -663,7 +680,8 @@ def search(chk):
     if not binary:
         return
     chk.rng = chk.rng.fork()
-    cases = [c for _, cs in gen(chk, "quick") for c in cs] + pure.corpus_cases("C17")
+    cases = [c for _, cs in gen(chk, "quick") for c in cs] + [c for c in pure.corpus_cases("C17") if not c.startswith("c17x")]
+    c17mx.search(chk)
     run_stress(chk, binary, gen_stress(chk, "quick") * 2)
     impl = common.run_impl(binary, cases)
     for c, i in zip(cases, impl):
@@ -676,14 +694,17 @@ def replay(chk, path):
     rep = json.load(open(path))
     binary = build_coop(chk)
     cases = [x["case"] for x in rep.get("failing_inputs", []) + rep.get("divergences", []) if isinstance(x.get("case"), str) and x["case"].startswith("c17")]
-    impl = common.run_impl(binary, cases)
-    model = common.run_model(cases)
-    bad = 0
+    xcases = [c for c in cases if c.startswith("c17x")]
+    cases = [c for c in cases if not c.startswith("c17x")]
+    xbad = c17mx.replay_cases(chk, xcases)
+    impl = common.run_impl(binary, cases) if cases else []
+    model = common.run_model(cases) if cases else []
+    bad = xbad
     for c, m, i in zip(cases, model, impl):
         mf = monitor(c, i)
         cmpr = compare(c, m, i)
         print("case=%s\n  model=%s\n  impl=%s\n  monitor=%s compare=%s" % (c, m, i, mf, cmpr))
         if mf or cmpr:
             bad += 1
-    print("replayed %d case(s), %d still failing" % (len(cases), bad))
+    print("replayed %d case(s), %d still failing" % (len(cases) + len(xcases), bad))
     raise SystemExit(1 if bad else 0)
